@@ -75,6 +75,7 @@ func capturedBinding(parent *ssa.Function, cl *ssa.Function, name string) ssa.Va
 func runC14(c *core.Ctx) {
 	p := c.P
 	c.Rule("R1", "request/reply routing: YieldRef replies to the requester carried by the received request with `out` and returns the request's value; YieldFrom sends (caller, in) to the target and returns what arrives on its own result channel; receive builds {cor: caller, val: in}", 3)
+	c.Rule("R3", "the request and result channels of a coroutine are assigned only on the object under construction (never created lazily or replaced once the coroutine is shared)", 2)
 	c.Rule("R2", "lifecycle ordering: started flag before spawn, effect then close; StartWithVal enqueues before Start; DoNotation/YieldFromIO assign before Done and Wait before return", 4)
 	yr := p.Method(p.Fpgo, "CorDef", "YieldRef")
 	yf := p.Method(p.Fpgo, "CorDef", "YieldFrom")
@@ -347,6 +348,55 @@ func runC14(c *core.Ctx) {
 			return true, "enqueues &CorOp{cor: caller, val: in} on its own opCh under its own lock wrapper"
 		}()
 		c.Check(ok, "R1", "CorDef.receive", p.Pos(rc.Pos()), detail, detail)
+	}
+	// ---------- R3 the channels are created once, before the coroutine is shared
+	{
+		var fresh func(v ssa.Value, depth int) bool
+		fresh = func(v ssa.Value, depth int) bool {
+			v = core.Resolve(v)
+			switch x := v.(type) {
+			case *ssa.Alloc:
+				return true
+			case *ssa.Parameter:
+				// an initialisation helper of the constructor: every caller hands it the object under construction
+				acts := core.ParamActuals(p, x)
+				if len(acts) == 0 || depth > 2 {
+					return false
+				}
+				for _, a := range acts {
+					if !fresh(a.Arg, depth+1) {
+						return false
+					}
+				}
+				return true
+			}
+			return false
+		}
+		n := 0
+		for _, f := range p.Funcs {
+			if f.Pkg != p.Fpgo && !(f.Parent() != nil && p.InRepo(f)) {
+				continue
+			}
+			core.Instrs(f, func(ins ssa.Instruction) {
+				st, isS := ins.(*ssa.Store)
+				if !isS {
+					return
+				}
+				fa, isFA := st.Addr.(*ssa.FieldAddr)
+				if !isFA {
+					return
+				}
+				key := core.FieldKey(fa)
+				if key != "CorDef.opCh" && key != "CorDef.resultCh" {
+					return
+				}
+				n++
+				c.Check(fresh(fa.X, 0), "R3", fmt.Sprintf("%s/store:%s", core.FuncName(f), key), p.InstrPos(ins), "set on the object under construction", key+" is assigned outside the construction of the coroutine: once the coroutine is shared, the requester (receive, under the lock) and the owner (YieldRef/YieldFrom, without it) read this field concurrently - a channel created or replaced later means a request or reply is sent on a channel nobody receives from (YieldFrom hangs) and races with close()")
+			})
+		}
+		if n == 0 {
+			c.Unknown("R3", "CorDef.channels", "-", "no store to CorDef.opCh / CorDef.resultCh found (constructor expected)")
+		}
 	}
 	// ---------- R2 Start
 	if st := p.Method(p.Fpgo, "CorDef", "Start"); st == nil {
